@@ -44,6 +44,22 @@ fn create_symlink(sri: Integrity, cache: &PathBuf, target: &PathBuf) -> Result<I
                 cpath.parent().unwrap().display()
             )
         })?;
+    // The link lives deep inside the cache, so a relative target has to be
+    // anchored at the directory it is relative to: the current directory.
+    let absolute;
+    let target = if target.is_relative() {
+        absolute = std::env::current_dir()
+            .with_context(|| {
+                format!(
+                    "Failed to resolve relative link target {}",
+                    target.display()
+                )
+            })?
+            .join(target);
+        &absolute
+    } else {
+        target
+    };
     if let Err(e) = symlink_file(target, &cpath) {
         // If symlinking fails because there's *already* a file at the desired
         // destination, that is ok -- all the cache should care about is that
